@@ -5,6 +5,8 @@ exec 9>/tmp/seedtest.lock; flock 9
 cd /repo || exit 9
 git diff --quiet || { echo "/repo has local changes"; exit 9; }
 git apply /verif/seeded/$S/patch.diff || { echo APPLY-FAILED; exit 8; }
+cp /verif/evidence/$ID.json /tmp/seedtest_ev_$ID.json 2>/dev/null
 (cd /verif && ./check $ID "$@" > /tmp/seedtest_$S.log 2>&1; echo "check_rc=$?" >> /tmp/seedtest_$S.log)
+cp /tmp/seedtest_ev_$ID.json /verif/evidence/$ID.json 2>/dev/null   # evidence of a mutated tree is never kept
 git checkout -- .
 grep -E "^VIOLATION|check_rc|^\[$ID\]" /tmp/seedtest_$S.log | head -8
